@@ -738,3 +738,15 @@ pub(crate) fn add_mapping_dyn_new<W, R, T>(
         },
     )
 }
+
+#[cfg(feature = "verif")]
+impl<W: 'static, R: 'static, T: 'static, V: Debug + 'static> XMapping<W, R, T, V> {
+    pub(super) fn verif_bucket_sizes(&self) -> Vec<usize> {
+        let mut ret: Vec<usize> = self.inner.values().map(|b| b.len()).collect();
+        ret.sort_unstable();
+        ret
+    }
+    pub(super) fn verif_len(&self) -> usize {
+        self.len
+    }
+}
